@@ -281,19 +281,53 @@ def main():
             ts = qr.TimeAxis(shift * dt, nsub, mult * dt)
             if not ts.is_subset_of(ta):
                 continue             # float round-off in the axis test
-            U = prop.get_PropagationMatrix(ts)
+            # also through the entry that returns the perturbative orders
+            # in the transfer rates along with the matrix
+            ncorr = (-1, 0, 2, 1)[(s + len(regime)) % 4]
+            if ncorr < 0:
+                U = prop.get_PropagationMatrix(ts)
+            else:
+                U, _orders = prop.get_PropagationMatrix(
+                    ts, corrections=ncorr, exact=bool(s % 2))
             worst = 0.0
             for i, t in enumerate(ts.data):
                 E = scipy.linalg.expm(K * (t - ta.data[0]))
                 worst = max(worst, float(numpy.abs(U[:, :, i] - E).max()))
             smp = dict(N=N, regime=regime, mult=mult, shift=shift, err=worst,
-                       shape=shape)
+                       shape=shape, corrections=ncorr)
             ck.case("propagation-matrix", (regime, s), sample=smp)
             if not worst <= 1e-9:
                 ck.violation("propagation-matrix", "subaxis:%s:%s" % (
                     regime, shape), smp,
                              dict(kind="propmatrix", K=K.tolist(), dt=dt,
                                   Nt=Nt, shift=shift, mult=mult, nsub=nsub))
+
+        # the propagator (and the rate matrix object it was given) after
+        # the propagation matrices were requested: same dynamics as before
+        pops3 = numpy.array(prop.propagate(p0in))
+        exact3 = numpy.array([scipy.linalg.expm(K * t).dot(
+            numpy.asarray(p0, dtype=float)) for t in ta.data])
+        g3 = float(numpy.abs(K).sum(axis=0).max())
+        T3 = sum(numpy.linalg.matrix_power(K * dt, l) / math.factorial(l)
+                 for l in range(L + 1))
+        growth3, P3 = 1.0, numpy.eye(N)
+        for k in range(Nt):
+            P3 = T3.dot(P3)
+            growth3 = max(growth3, numpy.abs(P3).sum(axis=0).max())
+        bound3 = Nt * (g3 * dt) ** (L + 1) / math.factorial(L + 1) * \
+            math.exp(g3 * dt) * growth3
+        err3 = float(numpy.abs(pops3 - exact3).sum(axis=1).max())
+        sums3 = float(numpy.abs(pops3.sum(axis=1) - 1.0).max())
+        smp3 = dict(N=N, err=err3, bound=bound3, sum_defect=sums3)
+        rp3 = dict(kind="propagate-after-matrices", K=K.tolist(), dt=dt,
+                   Nt=Nt)
+        ck.case("matches-expm-after-matrices", ("num", s), sample=smp3)
+        if sums3 > 1e-12 * Nt:
+            ck.violation("sum-conserved", "propagate-after-matrices", smp3,
+                         rp3)
+        if err3 > 10 * bound3 + 1e-12:
+            ck.violation("matches-expm", "propagate-after-matrices", smp3,
+                         rp3)
 
     axis_grid(ck, qr, numpy)
 
